@@ -6,8 +6,9 @@ TECH = "bounded model checking of the real code (Kani/CBMC, SAT-decided, unwindi
 
 CLAIMS = {
     "C10": dict(
-        text="helper::NextAfter proved for ALL finite f32 and f64 inputs (full range, bit-pattern reference); every lattice harness "
-             "of the float kernels is instantiated at both F=f32 and F=f64 (named in the evidence). Bounded claim, not a proof of whole calls.",
+        text="helper::NextAfter proved for ALL finite f32 and f64 inputs (full range, bit-pattern reference); signed_area::<f32> and ::<f64> have the exact sign of the determinant "
+             "on a fixed-point domain of 2^23 values per coordinate (the f32 instantiation widens losslessly before any arithmetic); intersection::<f32> decided on all lattice segment pairs and compared with ::<f64>; "
+             "every lattice harness of the float kernels exists at both F=f32 and F=f64 (f64/f32 counterparts in the thorough tier). Bounded claim, not a proof of whole calls.",
         design_ref="DESIGN.md 4 C10",
         note="Trusted: Kani/CBMC float semantics (IEEE-754 bit-precise), robust::orient2d replaced by the exact determinant on lattice inputs. "
              "Outside: whole calls in f32, general-position floats.",
@@ -77,7 +78,7 @@ CLAIMS["C08"] = dict(
 CLAIMS["C13"] = dict(
     text="partial, compositional: queue filling per edge (exactly one linked pair, left = smaller endpoint, exact box) and per ring protocol; divide_segment contract; possible_intersection one arm at a time "
          "(None, Point with contract models of its callees; Overlap on 9 interval configurations x 4 directions x operand assignment with the real callees): which segments are split, where, typing and return code.",
-    design_ref="DESIGN.md 4 C13", note=ORI + GLUE + "That checking neighbours only (on insertion and after removal) suffices for planarity is the sweep-loop glue and outside.", technique=TECH)
+    design_ref="DESIGN.md 4 C13", note=ORI + GLUE + "That checking neighbours only suffices for planarity is a paper step; the Overlap templates need ~40 GB each and only two run in the quick tier; the sweep-protocol harness replaces BinaryHeap::pop, SplaySet and the three callees by models (listed in the evidence).", technique=TECH)
 CLAIMS["C15"] = dict(
     text="both public orders decided on all pairs of lattice segments: SweepEvent::cmp (any endpoint events, f64 quick / f32 thorough) never Equal, antisymmetric, equal to the reference order (x, y, right-before-left, lower segment first, subject first); "
          "compare_segments Equal iff identical, antisymmetric, equal to the vertical order of non-crossing pairs where separated; thorough: transitivity on triples, order_events on 4 events, larger windows.",
